@@ -306,6 +306,17 @@ netbuf_write_consume(struct netbuf_write * W, size_t len)
 	if (W->failed == 0)
 		WB->datalen += len;
 
+	/*
+	 * If the buffer is still empty, it was created by netbuf_write_reserve
+	 * for a zero-length reservation; discard it rather than asking the
+	 * network layer to write zero bytes.
+	 */
+	if ((W->failed == 0) && (WB->datalen == 0)) {
+		STAILQ_REMOVE(&W->buffers, WB, writebuf, entries);
+		free(WB->buf);
+		free(WB);
+	}
+
 	/* We no longer have space reserved. */
 	W->reserved = 0;
 
